@@ -214,6 +214,9 @@ def generate_source_code(docstring, parsed):
         out += Code('_ctx = _Context()')
 
         if parsed.extends is not None:
+            # Start with everything in the super-grammar (this includes the
+            # implementations of its anonymous rules).
+            out += Code('_ctx.__dict__.update(_super_ctx.__dict__)')
             out += Code('_ctx._super_ctx = _super_ctx')
 
         if super_has_ignore and not ignored:
